@@ -23,11 +23,11 @@ import Gv.Proofs.PhaseAlignNT
   `phase_nt_panics_on_slice_bounds`.
 
 Partial: the clause "a sequence containing the reference ORF verbatim once is trimmed at its start" is proved
-for the nucleotide mode (`phasent`), ONE reference, the forward strand only, gap penalties
+for the nucleotide mode (`phasent`), ONE reference, gap penalties
 `gapopen ≤ gapextend < 0` and a diagonally dominant scoring scheme (every match/mismatch scheme with
-`mismatch < match`, `0 < match`; DNAfull on A/C/G/T) — not for the translate mode (BLOSUM62 on the three or six
-translations), several references or both strands, where it enters only as a `Hit` and is checked on the
-implementation by the oracle predicate.  The Go memory model / scheduler are outside the model.
+`mismatch < match`, `0 < match`, one or both strands; DNAfull on A/C/G/T, forward strand) — not for the
+translate mode (BLOSUM62 on the three or six translations) or several references, where it enters only as a `Hit`
+and is checked on the implementation by the oracle predicate.  The Go memory model / scheduler are outside the model.
 -/
 namespace Gv.Props.C16
 open Gv Gv.Model Gv.Model.Phase
@@ -470,36 +470,46 @@ theorem atg_verbatim_aligned_at_occurrence_partial (a : Aligner) (orf pre post :
   alignATG_verbatim a orf pre post hgap hne hdom honce
 
 /-- **a sequence that contains the reference ORF verbatim once is trimmed exactly at that ORF's start**
-— nucleotide mode (`alignAgainstRefsNT`), one reference, forward strand, under the hypotheses of
-`atg_verbatim_aligned_at_occurrence_partial` (and no gap character in the reference): unless an alignment error
-is reported, the reported position is the offset of the occurrence, the trimmed nucleotides start with the
-reference (and are the reference when the end is cut), the codon sequence is the trimmed sequence (frame 0). -/
+— nucleotide mode (`alignAgainstRefsNT`), one reference, under the hypotheses of
+`atg_verbatim_aligned_at_occurrence_partial` (and no gap character in the reference); when both strands are
+searched (`reverse`), also: the scheme used for the reverse-complemented copy is dominant there and gives the
+reference no greater self-score.  Unless an alignment error is reported, the reported position is the offset of
+the occurrence, the trimmed nucleotides start with the reference (and are the reference when the end is cut),
+the codon sequence is the trimmed sequence (frame 0), and the hit is on the forward strand. -/
 theorem phase_nt_verbatim_trimmed_at_orf_start_partial (c : NTCfg) (code : List (List Byte × Byte))
-    (orf pre post : Seq) (hfix : c.fixed = true) (hrev : c.reverse = false)
+    (orf pre post : Seq) (hfix : c.fixed = true)
     (hgap : c.gapopen ≤ c.gapextend ∧ c.gapextend < 0) (hne : orf ≠ []) (hng : GAP ∉ orf)
     (hdom : Dom (schemeOf (c.aligner orf (pre ++ orf ++ post))) orf (pre ++ orf ++ post))
-    (honce : ∀ k, orf <+: (pre ++ orf ++ post).drop k → k = pre.length) :
+    (honce : ∀ k, orf <+: (pre ++ orf ++ post).drop k → k = pre.length)
+    (hrev : c.reverse = true →
+      Dom (schemeOf (c.aligner orf (revcompIgnoringError (pre ++ orf ++ post)))) orf
+          (revcompIgnoringError (pre ++ orf ++ post)) ∧
+        W (schemeOf (c.aligner orf (revcompIgnoringError (pre ++ orf ++ post)))) orf
+          ≤ W (schemeOf (c.aligner orf (pre ++ orf ++ post))) orf) :
     phaseNT c code [orf] (pre ++ orf ++ post) = NTOut.err ∨
     ∃ p, phaseNT c code [orf] (pre ++ orf ++ post)
         = NTOut.ok p ⟨false, 0, pre.length, pre.length + orf.length - 1⟩ ∧
       p.position = pre.length ∧ p.nt = (if c.cutend then orf else orf ++ post) ∧ p.codon = p.nt :=
-  phaseNT_verbatim c code orf pre post hfix hrev hgap hne hng hdom honce
+  phaseNT_verbatim c code orf pre post hfix hgap hne hng hdom honce hrev
 
-/-- instance: `SetAlignScores(match, mismatch)` with `0 < match`, `mismatch < match` (any residues) -/
+/-- instance: `SetAlignScores(match, mismatch)` with `0 < match`, `mismatch < match` — any residues, one or
+both strands -/
 theorem phase_nt_verbatim_trimmed_matchmismatch_partial (c : NTCfg) (code : List (List Byte × Byte))
     (orf pre post : Seq) (mt mm : Int) (hsc : c.scores = some (mt, mm)) (hpos : 0 < mt) (hlt : mm < mt)
-    (hfix : c.fixed = true) (hrev : c.reverse = false)
+    (hfix : c.fixed = true)
     (hgap : c.gapopen ≤ c.gapextend ∧ c.gapextend < 0) (hne : orf ≠ []) (hng : GAP ∉ orf)
     (honce : ∀ k, orf <+: (pre ++ orf ++ post).drop k → k = pre.length) :
     phaseNT c code [orf] (pre ++ orf ++ post) = NTOut.err ∨
     ∃ p, phaseNT c code [orf] (pre ++ orf ++ post)
         = NTOut.ok p ⟨false, 0, pre.length, pre.length + orf.length - 1⟩ ∧
       p.position = pre.length ∧ p.nt = (if c.cutend then orf else orf ++ post) ∧ p.codon = p.nt :=
-  phaseNT_verbatim c code orf pre post hfix hrev hgap hne hng
+  phaseNT_verbatim c code orf pre post hfix hgap hne hng
     (dom_of_scores c orf _ mt mm hsc hpos hlt _ _) honce
+    (fun _ => ⟨dom_of_scores c orf _ mt mm hsc hpos hlt _ _,
+      Int.le_of_eq (by rw [scheme_of_scores_eq c orf _ (pre ++ orf ++ post) mt mm hsc])⟩)
 
 /-- instance: the phaser's default scoring (DNAfull chosen by `NewPwAligner`) on upper-case `A`, `C`, `G`, `T`
-sequences -/
+sequences, forward strand -/
 theorem phase_nt_verbatim_trimmed_default_acgt_partial (c : NTCfg) (code : List (List Byte × Byte))
     (orf pre post : Seq) (hsc : c.scores = none) (ha : c.alphaFixed = true) (hden : 0 < c.den)
     (h1 : ∀ x ∈ orf, x ∈ ([65, 67, 71, 84] : List Byte))
@@ -513,8 +523,8 @@ theorem phase_nt_verbatim_trimmed_default_acgt_partial (c : NTCfg) (code : List 
       p.position = pre.length ∧ p.nt = (if c.cutend then orf else orf ++ post) ∧ p.codon = p.nt := by
   obtain ⟨hm, hc, hd⟩ := aligner_default_dna c hsc ha orf (pre ++ orf ++ post) h1 h2
   have hng : GAP ∉ orf := fun h => by have := h1 _ h; revert this; decide
-  exact phaseNT_verbatim c code orf pre post hfix hrev hgap hne hng
-    (dom_dnafull _ (by rw [hd]; exact hden) hm hc _ _ h1 h2) honce
+  exact phaseNT_verbatim c code orf pre post hfix hgap hne hng
+    (dom_dnafull _ (by rw [hd]; exact hden) hm hc _ _ h1 h2) honce (fun h => by rw [hrev] at h; cases h)
 
 /-- the premise "occurs exactly once" can be discharged by evaluating the oracle's search -/
 theorem once_of_occurrences (orf seq : Seq) (p : Nat) (hne : orf ≠ []) (h : occurrences orf seq = [p]) :
